@@ -323,3 +323,150 @@ theorem runChain_sound : ∀ (ops : List NestOp) (F : NFrame Cell), F.Sound → 
       rw [hi, he, NFrame.setCol_index]
 
 end NP
+
+namespace NP
+variable {α : Type}
+
+/-! ### joins keep frames sound -/
+
+theorem optIndexer_length (idx : List (Option Nat)) : (optIndexer idx).length = idx.length := by
+  simp [optIndexer]
+
+/-- moving / repeating / dropping rows of a sound frame (`take` on every column, missing where there
+    is no source row) gives a sound frame -/
+theorem takeRows_sound (F : NFrame α) (h : F.Sound) (idx : List (Option Nat)) (dflt : α) (newIndex : List Label)
+    (hl : idx.length = newIndex.length) (F₁ : NFrame α) (hok : F.takeRows idx dflt newIndex = .ok F₁) : F₁.Sound := by
+  unfold NFrame.takeRows at hok
+  simp only [bind, Except.bind, pure, Except.pure] at hok
+  split at hok
+  · cases hok
+  · rename_i cols' hcols
+    have he := (Except.ok.inj hok).symm
+    subst he
+    have ⟨_, hspec⟩ := mapM_ok_spec _ _ _ hcols
+    -- every produced column comes from a column of F
+    have hsrc : ∀ p' ∈ cols', ∃ p ∈ F.cols, takeColData idx dflt p = .ok p' := by
+      intro p' hp'
+      obtain ⟨i, hi, rfl⟩ := List.getElem_of_mem hp'
+      have hlen : cols'.length = F.cols.length := (mapM_ok_spec _ _ _ hcols).1
+      have hi' : i < F.cols.length := by rw [← hlen]; exact hi
+      obtain ⟨c, hc1, hc2⟩ := hspec i _ (List.getElem?_eq_getElem hi')
+      rw [List.getElem?_eq_getElem hi] at hc2
+      have : cols'[i] = c := Option.some.inj hc2
+      rw [this]
+      exact ⟨F.cols[i], List.getElem_mem hi', hc1⟩
+    constructor
+    · intro n t v hm
+      obtain ⟨p, hp, htk⟩ := hsrc _ hm
+      obtain ⟨pn, pd⟩ := p
+      cases pd with
+      | base t' v' =>
+        simp only [takeColData, pure, Except.pure] at htk
+        have := Except.ok.inj htk
+        injection this with _ h2
+        injection h2 with _ h3
+        subst h3
+        simp only [takeBase, List.length_map]
+        exact hl
+      | nest c =>
+        simp only [takeColData, bind, Except.bind, pure, Except.pure] at htk
+        split at htk
+        · cases htk
+        · have := Except.ok.inj htk
+          injection this with _ h2
+          cases h2
+    · intro n c' hm
+      obtain ⟨p, hp, htk⟩ := hsrc _ hm
+      obtain ⟨pn, pd⟩ := p
+      cases pd with
+      | base t' v' =>
+        simp only [takeColData, pure, Except.pure] at htk
+        have := Except.ok.inj htk
+        injection this with _ h2
+        cases h2
+      | nest c =>
+        simp only [takeColData, bind, Except.bind, pure, Except.pure] at htk
+        split at htk
+        · cases htk
+        · rename_i c'' htake
+          have := Except.ok.inj htk
+          injection this with _ h2
+          injection h2 with h3
+          subst h3
+          have ⟨hc, _, _⟩ := h.nest pn c hp
+          have ⟨hcl, hlen, _, hch⟩ := take_none_clean c hc _ c'' htake
+          refine ⟨hcl, hch, ?_⟩
+          rw [hlen, optIndexer_length]
+          exact hl
+
+/-- **`add_nested` keeps frames sound, whatever the join**: a successful `add_nested` of ANY flat
+    table onto a sound frame, with any `how`, returns a sound frame (every old column re-gathered,
+    the new column clean storage with one row per result row). -/
+theorem addNested_sound [Inhabited α] (F : NFrame α) (h : F.Sound) (flat : FlatDF α) (name : String) (how : JoinHow)
+    (na : α) (F' : NFrame α) (hok : F.addNested flat name how na = .ok F') : F'.Sound := by
+  unfold NFrame.addNested at hok
+  simp only [bind, Except.bind, pure, Except.pure] at hok
+  split at hok
+  · cases hok
+  · rename_i packed hpk
+    split at hok
+    · cases hok
+    · rename_i F₁ htr
+      split at hok
+      · cases hok
+      · rename_i col htake
+        have he := (Except.ok.inj hok).symm
+        subst he
+        have hF₁ : F₁.Sound := takeRows_sound F h _ na _ (by simp) F₁ htr
+        have ⟨hcl, hch, _⟩ := packSortedDf_clean _ packed hpk
+        have ⟨hc', hlen, _, hch'⟩ := take_none_clean packed.col hcl _ col htake
+        apply setCol_sound F₁ hF₁ name col hc' hch'
+        rw [hlen]
+        -- the index of the gathered frame is the plan's labels
+        unfold NFrame.takeRows at htr
+        simp only [bind, Except.bind, pure, Except.pure] at htr
+        split at htr
+        · cases htr
+        · have := (Except.ok.inj htr).symm
+          subst this
+          simp
+
+end NP
+
+namespace NP
+
+/-- rebuilding operations and joins, mixed -/
+inductive FrameOp where
+  | rebuild (op : NestOp)
+  | join (flat : FlatDF Cell) (name : String) (how : JoinHow)
+
+def FrameOp.run (F : NFrame Cell) : FrameOp → R (NFrame Cell)
+  | .rebuild op => op.run F
+  | .join flat name how => F.addNested flat name how none
+
+def runFrameChain (F : NFrame Cell) : List FrameOp → R (NFrame Cell)
+  | [] => .ok F
+  | op :: ops => match op.run F with
+    | .ok F' => runFrameChain F' ops
+    | .error e => .error e
+
+/-- **chains mixing nested queries, dropnas, sorts and joins of any kind stay sound** -/
+theorem runFrameChain_sound : ∀ (ops : List FrameOp) (F : NFrame Cell), F.Sound → ∀ F', runFrameChain F ops = .ok F' →
+    F'.Sound
+  | [], F, h, F', hok => by
+    have := (Except.ok.inj hok).symm
+    subst this
+    exact h
+  | op :: ops, F, h, F', hok => by
+    unfold runFrameChain at hok
+    cases hr : op.run F with
+    | error e => rw [hr] at hok; cases hok
+    | ok F₁ =>
+      rw [hr] at hok
+      have h₁ : F₁.Sound := by
+        cases op with
+        | rebuild o => exact (NestOp.run_sound F h o F₁ hr).1
+        | join flat name how => exact addNested_sound F h flat name how none F₁ hr
+      exact runFrameChain_sound ops F₁ h₁ F' hok
+
+end NP
